@@ -197,4 +197,215 @@ theorem validate_eq_model (r e : Separation.Arr) :
             by_cases h8 : 100 < n <;> simp [hA, hB, hC, h8, hD, hE] <;> simp_all
   · simp [h1]
 
+/-! ## 4. the selection glue of `bss_eval_sources` (the numerical kernel is a pair of extern parameters) -/
+
+theorem mapM_ok {α β : Type} (l : List α) (f : α → Py β) (g : α → β) (h : ∀ x ∈ l, f x = .ok (g x)) :
+    l.mapM f = .ok (l.map g) := by
+  induction l with
+  | nil => rfl
+  | cons a t ih =>
+    rw [List.mapM_cons, h a (by simp), ih (fun x hx => h x (by simp [hx]))]
+    rfl
+
+theorem forRange_ok {α : Type} (n : Nat) (f : Nat → Py α) (g : Nat → α) (h : ∀ i < n, f i = .ok (g i)) :
+    PySep.forRange n f = .ok ((List.range n).map g) :=
+  mapM_ok _ f g (fun x hx => h x (List.mem_range.mp hx))
+
+theorem forRange2_ok {α : Type} (n m : Nat) (f : Nat → Nat → Py α) (g : Nat → Nat → α)
+    (h : ∀ i < n, ∀ j < m, f i j = .ok (g i j)) :
+    PySep.forRange2 n m f = .ok ((List.range n).map fun i => (List.range m).map (g i)) :=
+  mapM_ok _ _ _ (fun i hi => mapM_ok _ _ _ (fun j hj => h i (List.mem_range.mp hi) j (List.mem_range.mp hj)))
+
+theorem forEnumFrom_ok {α β : Type} (f : Nat → α → Py β) (g : α → β) (xs : List α)
+    (h : ∀ k, ∀ x ∈ xs, f k x = .ok (g x)) (i : Nat) : PySep.forEnumFrom f i xs = .ok (xs.map g) := by
+  induction xs generalizing i with
+  | nil => rfl
+  | cons a t ih =>
+    rw [PySep.forEnumFrom, h i a (by simp), ok_bind, ih (fun k x hx => h k x (by simp [hx]))]
+    rfl
+
+/-- the table a fill loop wrote, as a function of the indices -/
+def tabOf (n : Nat) (M : Nat → Nat → Rat) : List (List Rat) :=
+  (List.range n).map fun e => (List.range n).map fun t => M e t
+
+theorem at2_tabOf (n : Nat) (M : Nat → Nat → Rat) (e t : Nat) (he : e < n) (ht : t < n) :
+    PySep.at2 (tabOf n M) e t = .ok (M e t) := by
+  simp [PySep.at2, tabOf, he, ht]
+
+theorem fancy2_tabOf (n : Nat) (M : Nat → Nat → Rat) (p : List Nat) (j : Nat)
+    (hp : ∀ e ∈ p, e < n) (hj : j + p.length ≤ n) :
+    PySep.fancy2 (tabOf n M) p (List.range' j p.length) = .ok (selectFrom M j p) := by
+  induction p generalizing j with
+  | nil => rfl
+  | cons e es ih =>
+    have h1 : e < n := hp e (by simp)
+    have h2 : j < n := by simp at hj; omega
+    simp only [List.length_cons, List.range'_succ, PySep.fancy2, at2_tabOf n M e j h1 h2, ok_bind]
+    rw [ih (j + 1) (fun x hx => hp x (by simp [hx])) (by simp at hj; omega)]
+    rfl
+
+theorem selectFrom_sum (S : Nat → Nat → Rat) (p : List Nat) (j : Nat) :
+    (selectFrom S j p).sum = scoreFrom S j p := by
+  induction p generalizing j with
+  | nil => rfl
+  | cons e es ih => simp [selectFrom, scoreFrom, ih]
+
+theorem selectFrom_length (S : Nat → Nat → Rat) (p : List Nat) (j : Nat) : (selectFrom S j p).length = p.length := by
+  induction p generalizing j with
+  | nil => rfl
+  | cons e es ih => simp [selectFrom, ih]
+
+theorem mean_selectFrom (S : Nat → Nat → Rat) (p : List Nat) :
+    PySep.mean (selectFrom S 0 p) = meanSir p.length S p := by
+  simp [PySep.mean, meanSir, score, selectFrom_sum, selectFrom_length]
+
+theorem argmaxAux_spec {α : Type} (f : α → Rat) (all : List α) :
+    ∀ (rest : List α) (b : α) (bi i : Nat), all[bi]? = some b → all.drop i = rest →
+      all[PySep.argmaxAux (f b) bi i (rest.map f)]? = some (firstMaxBy f b rest) := by
+  intro rest
+  induction rest with
+  | nil => intro b bi i hb _; simpa [PySep.argmaxAux, firstMaxBy] using hb
+  | cons x xs ih =>
+    intro b bi i hb hd
+    have hx : all[i]? = some x := by
+      have := congrArg List.head? hd
+      simpa [List.head?_drop] using this
+    have hd' : all.drop (i + 1) = xs := by
+      have := congrArg List.tail hd
+      simpa [List.tail_drop] using this
+    simp only [List.map_cons, PySep.argmaxAux, firstMaxBy]
+    split
+    · exact ih x i (i + 1) hx hd'
+    · exact ih b bi (i + 1) hb hd'
+
+/-- `perms[np.argmax([f(p) for p in perms])]` is the model's first maximiser. -/
+theorem getItem_argmax {α : Type} (f : α → Rat) (p : α) (ps : List α) :
+    (PySep.argmax ((p :: ps).map f) >>= fun k => PySep.getItem (p :: ps) k) = .ok (firstMaxBy f p ps) := by
+  have := argmaxAux_spec f (p :: ps) ps p 0 1 rfl rfl
+  simp only [List.map_cons, PySep.argmax, ok_bind, PySep.getItem, this]
+
+/-- the four outputs of the translated `bss_eval_sources` as the model lists them (`perm` as floats) -/
+def outList (x : List Rat × List Rat × List Rat × List Nat) : List (List Rat) :=
+  [x.1, x.2.1, x.2.2.1, x.2.2.2.map fun (e : Nat) => (e : Rat)]
+
+/-- the model's result as a list of vectors (`k` empty arrays for the empty special case) -/
+def flatOut : Out → List (List Rat)
+  | .empties k => List.replicate k []
+  | .vecs vs => vs
+  | .mats _ => []
+
+theorem promote2_eq (a : Separation.Arr) :
+    (if decide (PySep.ndim a = 1) = true then PySep.newaxis0 a else a) = promote2 a := by
+  unfold promote2 PySep.ndim PySep.newaxis0
+  by_cases h : a.shape.length = 1 <;> simp [h]
+
+theorem validate_shape_ne_nil (R E : Separation.Arr) (hv : validate R E = .ok ()) : E.shape ≠ [] := by
+  intro h
+  unfold validate at hv
+  by_cases h1 : R.shape = E.shape
+  · simp [h1, h, Separation.Arr.size, bind, Except.bind, throw, throwThe, MonadExceptOf.throw] at hv
+  · simp [h1, bind, Except.bind, throw, throwThe, MonadExceptOf.throw] at hv
+
+theorem selectFrom_diag (M : Nat → Nat → Rat) (k j : Nat) :
+    selectFrom M j (List.range' j k) = (List.range' j k).map fun i => M i i := by
+  induction k generalizing j with
+  | zero => rfl
+  | succ k ih => simp [List.range'_succ, selectFrom, ih]
+
+theorem tab2_tabOf (n : Nat) (C : Nat → Nat → Nat → Rat) (o : Nat) (ho : o < 3) :
+    PySep.tab2 ((List.range n).map fun e => (List.range n).map fun t => [C e t 0, C e t 1, C e t 2]) o
+      = tabOf n (fun e t => C e t o) := by
+  have : o = 0 ∨ o = 1 ∨ o = 2 := by omega
+  rcases this with rfl | rfl | rfl <;> simp [PySep.tab2, tabOf, List.map_map, Function.comp_def]
+
+theorem mem_perms_range (n : Nat) (p : List Nat) (hp : p ∈ perms (List.range n)) :
+    p.length = n ∧ ∀ e ∈ p, e < n := by
+  have h := (perms_are_the_permutations (List.range n) p).mp hp
+  refine ⟨by simpa using h.length_eq, fun e he => ?_⟩
+  have := h.mem_iff.mp he
+  simpa using this
+
+theorem fancy2_perm (n : Nat) (M : Nat → Nat → Rat) (p : List Nat) (hp : p ∈ perms (List.range n)) :
+    PySep.fancy2 (tabOf n M) p (List.range n) = .ok (selectFrom M 0 p) := by
+  obtain ⟨hl, hlt⟩ := mem_perms_range n p hp
+  have := fancy2_tabOf n M p 0 hlt (by omega)
+  rwa [hl, ← List.range_eq_range'] at this
+
+/-- `bss_eval_sources` as translated = the model's `bssEvalSources`, for ALL arrays (1-D promoted, empty, invalid) and
+    both values of `compute_permutation`, whenever the kernel (the two extern parameters, run on estimate `e` against
+    reference `t`) returns the criteria `C e t ·`. -/
+theorem bss_eval_sources_eq_model {σ : Type} (ref est : Separation.Arr) (cp : Bool)
+    (dec : Separation.Arr → List (List Rat) → Nat → Nat → Py (σ × σ × σ × σ))
+    (crit : σ → σ → σ → σ → Py (Rat × Rat × Rat)) (C : Nat → Nat → Nat → Rat)
+    (hK : ∀ e t, e < (promote2 est).shape.headD 0 → t < (promote2 est).shape.headD 0 →
+      ∃ row c, (promote2 est).data[e]? = some row ∧ dec (promote2 ref) row t 512 = .ok c ∧
+        crit c.1 c.2.1 c.2.2.1 c.2.2.2 = .ok (C e t 0, C e t 1, C e t 2)) :
+    (Gen.separation.bss_eval_sources ref est cp dec crit).map outList
+      = (bssEvalSources C ref est cp).map flatOut := by
+  unfold Gen.separation.bss_eval_sources bssEvalSources
+  simp only [promote2_eq, validate_eq_model]
+  generalize promote2 est = E at *
+  generalize promote2 ref = R at *
+  cases hv : validate R E with
+  | error err => rfl
+  | ok u =>
+    simp only [ok_bind]
+    by_cases hz : R.size = 0 ∨ E.size = 0
+    · have : (decide (R.size = 0) || decide (E.size = 0)) = true := by simpa using hz
+      simp only [this, if_true, hz]
+      rfl
+    · have hz' : (decide (R.size = 0) || decide (E.size = 0)) = false := by simpa using hz
+      simp only [hz', hz, if_false, Bool.false_eq_true]
+      obtain ⟨n, t, hs⟩ : ∃ n t, E.shape = n :: t := by
+        rcases h : E.shape with _ | ⟨n, t⟩
+        · exact absurd h (validate_shape_ne_nil R E hv)
+        · exact ⟨n, t, rfl⟩
+      have hsh : PySep.shapeAt E 0 = .ok n := by simp [PySep.shapeAt, hs]
+      have hn : E.shape.headD 0 = n := by simp [hs]
+      rw [hn] at hK ⊢
+      simp only [hsh, ok_bind]
+      have hbody : ∀ e t, e < n → t < n →
+          (do let r ← PySep.arrRow E e
+              let c ← dec R r t 512
+              let k ← crit c.1 c.2.1 c.2.2.1 c.2.2.2
+              pure [k.1, k.2.1, k.2.2] : Py (List Rat)) = .ok [C e t 0, C e t 1, C e t 2] := by
+        intro e t he ht
+        obtain ⟨row, c, h1, h2, h3⟩ := hK e t he ht
+        simp only [PySep.arrRow, h1, ok_bind, h2, h3]
+        rfl
+      cases cp with
+      | false =>
+        simp only [Bool.false_eq_true, if_false]
+        rw [forRange_ok n _ (fun j => [C j j 0, C j j 1, C j j 2]) (fun j hj => hbody j j hj hj)]
+        simp only [ok_bind, selectOutputs, Bool.false_eq_true, if_false]
+        simp [outList, flatOut, PySep.tab1, List.map_map, Function.comp_def, Except.map, pure, Except.pure,
+          List.range_succ, List.range_eq_range', selectFrom_diag]
+      | true =>
+        simp only [if_true]
+        rw [forRange2_ok n n _ (fun e t => [C e t 0, C e t 1, C e t 2]) (fun e he t ht => hbody e t he ht)]
+        simp only [ok_bind, tab2_tabOf n C _ (by decide : 0 < 3), tab2_tabOf n C _ (by decide : 1 < 3),
+          tab2_tabOf n C _ (by decide : 2 < 3), PySep.permutations, PySep.forEnum]
+        rw [forEnumFrom_ok _ (fun perm => [meanSir n (fun e t => C e t 1) perm]) _ (by
+          intro k perm hp
+          rw [fancy2_perm n _ perm hp, ok_bind, mean_selectFrom, (mem_perms_range n perm hp).1]
+          rfl)]
+        simp only [ok_bind]
+        obtain ⟨p, ps, hps⟩ : ∃ p ps, perms (List.range n) = p :: ps := by
+          rcases h : perms (List.range n) with _ | ⟨p, ps⟩
+          · exact absurd h (perms_range_ne_nil n)
+          · exact ⟨p, ps, rfl⟩
+        have hbest : bestPerm n (fun e t => C e t 1) = firstMaxBy (meanSir n fun e t => C e t 1) p ps := by
+          simp [bestPerm, hps]
+        have hmem := bestPerm_mem n (fun e t => C e t 1)
+        have htab : PySep.tab1 ((perms (List.range n)).map fun perm => [meanSir n (fun e t => C e t 1) perm]) 0
+            = (p :: ps).map (meanSir n fun e t => C e t 1) := by
+          simp [PySep.tab1, hps, List.map_map, Function.comp_def]
+        rw [htab]
+        have hgi : PySep.getItem (p :: ps) (PySep.argmaxAux (meanSir n (fun e t => C e t 1) p) 0 1
+            (ps.map (meanSir n fun e t => C e t 1))) = .ok (firstMaxBy (meanSir n fun e t => C e t 1) p ps) := by
+          simp only [PySep.getItem, argmaxAux_spec (meanSir n fun e t => C e t 1) (p :: ps) ps p 0 1 rfl rfl]
+        rw [hps]
+        simp only [List.map_cons, PySep.argmax, ok_bind, hgi, ← hbest, fancy2_perm n _ _ hmem]
+        simp [outList, flatOut, selectOutputs, Except.map, pure, Except.pure, List.range_succ]
+
 end Mir.C19.Gen
